@@ -1,6 +1,6 @@
 // C08 harness: sparse kernels of the builtin backend at the exact rational type Q.
 // Ops: k_transpose A | k_saad A B sort | k_rmerge A B | k_product nt A B sort | k_sum a A b B sort
-//      k_scale A s | k_sort A | k_diag A invert | k_gersh scaled A
+//      k_scale A s | k_sort A | k_diag A invert | k_gersh scaled A | k_power scaled iters A (double, labelled test)
 //      k_crs_copy kind A   (0: range constructor, 1: copy constructor, 2: convert from crs<Q,int,int>, 3: convert from a tuple adapter (square))
 #include "gen.hpp"
 #include <amgcl/backend/builtin.hpp>
@@ -141,6 +141,28 @@ static Result execute(const Toks &t) {
         for (size_t j = 0; ok && j < A.col.size(); ++j) if (C->col[j] != A.col[j] || C->val[j].v != A.val[j].v) ok = false;
         if (!ok) r.fail("crs copy/convert constructor is not the identity");
         r.out = (Line() << ptr_of(*C) << *C).get(); r.nontrivial = A.col.size() > 0; r.tag("crs_copy" + std::to_string(kind)); if (A.n != A.m) r.tag("rect");
+    } else if (op == "k_power") {
+        // power-method branch of spectral_radius (thread-seeded random start vector: not modelled).  Labelled TEST in
+        // double: the estimate <b1,b0> of k steps never exceeds the largest singular value of (D^-1)A.
+        bool sc = c.nat() != 0; long iters = c.nat(); Mat A = checked(c); c.expect_end();
+        if (A.n != A.m || iters < 1) throw bad_input("square");
+        long n = A.n; std::vector<ptrdiff_t> ptr(A.ptr), col(A.col); std::vector<double> val(A.val.size());
+        for (size_t i = 0; i < val.size(); ++i) val[i] = A.val[i].v.get_d();
+        amgcl::backend::crs<double> Ad(n, n, ptr, col, val);
+        for (long i = 0; i < n; ++i) { int nd = 0; for (auto j = ptr[i]; j < ptr[i+1]; ++j) if (col[j] == i && val[j] != 0) ++nd; if (sc && nd != 1) throw bad_input("diagonal"); }
+        double est = sc ? amgcl::backend::spectral_radius<true>(Ad, (int)iters) : amgcl::backend::spectral_radius<false>(Ad, (int)iters);
+        // sigma_max^2 = largest eigenvalue of M^T M, M = (D^-1) A, by cyclic Jacobi in long double
+        std::vector<std::vector<long double>> M(n, std::vector<long double>(n, 0)), G(n, std::vector<long double>(n, 0));
+        for (long i = 0; i < n; ++i) { long double d = 1; for (auto j = ptr[i]; j < ptr[i+1]; ++j) if (col[j] == i) d = val[j]; for (auto j = ptr[i]; j < ptr[i+1]; ++j) M[i][col[j]] += sc ? val[j] / d : (long double)val[j]; }
+        for (long i = 0; i < n; ++i) for (long j = 0; j < n; ++j) for (long k = 0; k < n; ++k) G[i][j] += M[k][i] * M[k][j];
+        for (int sweep = 0; sweep < 60; ++sweep) { long double off = 0; for (long p = 0; p < n; ++p) for (long q = p + 1; q < n; ++q) { off += G[p][q] * G[p][q]; if (G[p][q] == 0) continue;
+            long double th = (G[q][q] - G[p][p]) / (2 * G[p][q]), tt = (th >= 0 ? 1 : -1) / (fabsl(th) + sqrtl(th * th + 1)), cs = 1 / sqrtl(tt * tt + 1), sn = tt * cs;
+            for (long k = 0; k < n; ++k) { long double a = G[k][p], b = G[k][q]; G[k][p] = cs * a - sn * b; G[k][q] = sn * a + cs * b; }
+            for (long k = 0; k < n; ++k) { long double a = G[p][k], b = G[q][k]; G[p][k] = cs * a - sn * b; G[q][k] = sn * a + cs * b; } } if (off < 1e-40L) break; }
+        long double lmax = 0; for (long i = 0; i < n; ++i) lmax = std::max(lmax, G[i][i]);
+        long double smax = sqrtl(lmax);
+        if (!(est <= smax * (1 + 1e-9L) + 1e-12L)) r.fail("power-method estimate exceeds the largest singular value: est=" + std::to_string(est) + " sigma_max=" + std::to_string((double)smax));
+        r.out = "power-ok"; r.nontrivial = n > 1 && iters > 1; r.tag(sc ? "power_scaled" : "power"); r.tag("iters" + std::to_string(iters));
     } else r.out = "bad-op";
     return r;
 }
@@ -172,6 +194,11 @@ static void generate(Rng &rng, const Opts &o, std::vector<std::string> &lines) {
         else if (which == 8) { Mat A = rng.coin() ? gen_spd(rng, std::max<long>(n, 2)) : gen_convdiff(rng, std::max<long>(n, 2)); l << "k_gersh" << rng.coin() << A; }
         else { Mat A = gen_sparse(rng, n, n, dens); l << "k_gersh" << rng.coin(1, 4) << A; }
         lines.push_back(l.get());
+    }
+    for (long k = 0; k < (o.thorough() ? 400 : 60); ++k) {
+        long n = rng.range(1, 12); Mat A = rng.coin() ? gen_spd(rng, std::max<long>(n, 2)) : gen_convdiff(rng, std::max<long>(n, 2));
+        if (rng.coin(1, 4)) { Q s3(3); for (auto &v : A.val) v = v * s3; }
+        lines.push_back((Line() << "k_power" << rng.coin() << rng.range(1, 6) << A).get());
     }
     // exhaustive small patterns: every pair of 2x2 patterns (quick), every pair of 3x3 patterns sampled / 2x3 * 3x2 (thorough)
     for (unsigned a = 0; a < 16; ++a) for (unsigned b = 0; b < 16; ++b) {
